@@ -6,10 +6,12 @@ def run(ctx):
     if ctx.replay:
         return rerun(ctx)
     # 1. exhaustive model check: all runs of <= MaxOps writes/reads (both directions) with one attack
+    #    (incl. the far replay at distances 2^8, 2^16 (and 2^24 thorough); NonceUnique: the nonce counter never repeats)
     maxops = ctx.pick(4, 6)
-    r = ctx.model_check("net", "MC_SecureChannel", "MC_SecureChannel.cfg", constants={"MaxOps": maxops},
+    r = ctx.model_check("net", "MC_SecureChannel", "MC_SecureChannel.cfg",
+                        constants={"MaxOps": maxops, "FarDist": ctx.pick("{256, 65536}", "{256, 65536, 16777216}")},
                         coverage=True, timeout=ctx.pick(600, 3000))
-    ctx.check_coverage(r, ["Write", "ReadLeft", "ReadFrame", "Tamper", "Drop", "Dup", "Swap", "Replay", "Reflect"])
+    ctx.check_coverage(r, ["Write", "ReadLeft", "ReadFrame", "Tamper", "Drop", "Dup", "Swap", "Replay(", "ReplayFar", "Reflect"])
     ctx.exhaustive = True
     # 2. behaviours: all of depth 3 (BFS) + random walks
     depth = 3
@@ -19,7 +21,28 @@ def run(ctx):
     walks = ctx.behaviours("net", "Gen_SecureChannel", "Gen_SecureChannel.cfg",
                            constants={"MaxOps": wl, "Depth": wl},
                            simulate="num=%d" % ctx.pick(1500, 15000), depth=wl + 1, seed=ctx.seed, timeout=1500)
-    allb = bs + walks
+    # 2b. far replays: the recorded first frame comes back exactly 2^16 (thorough: also 2^24) frames later.
+    #     Directed walks with only this attack enabled; kept are runs where the reader then meets the replayed frame.
+    def far_runs(dist, num, keep):
+        fw = ctx.behaviours("net", "Gen_SecureChannel", "Gen_SecureChannel.cfg",
+                            constants={"MaxOps": 7, "Depth": 7, "AttackKinds": '{"replayfar"}', "FarDist": "{%d}" % dist,
+                                       "WriteSizes": "{1, 1025}", "ReadSizes": "{7, 4096}"},
+                            simulate="num=%d" % num, depth=8, seed=ctx.seed, timeout=900)
+        good = []
+        for b in fw:
+            at = [i for i, st in enumerate(b) if st["op"] == "attack" and st["kind"] == "replayfar" and st["i"] == dist]
+            if at and any(st["op"] == "read" and st["d"] == b[at[0]]["d"] and st["res"] == -1 for st in b[at[0] + 1:]):
+                good.append(b)
+        if len(good) < min(keep, 3):
+            from vlib import MachineryError
+            raise MachineryError("vacuity: only %d generated runs reach the far replay at distance %d" % (len(good), dist))
+        return good[:keep]
+    far = far_runs(65536, 400, ctx.pick(6, 20))
+    far_objs = []
+    if not ctx.quick():
+        # 2^24 filler frames take about a minute per suite: one run, one suite (chosen by the seed)
+        far_objs = [{"behaviour": b, "sub": ctx.seed, "suite": ctx.seed % 3} for b in far_runs(16777216, 400, 1)]
+    allb = bs + walks + far + far_objs
     inp = ctx.path("in", "behaviours.ndjson")
     with open(inp, "w") as fh:
         for b in allb:
@@ -27,11 +50,12 @@ def run(ctx):
     # 3. replay into pairs of network.SecureConn (all three AEAD suites) over an in-memory transport
     recs = ctx.go_replay("securechan", "TestReplay", inp, shards=ctx.pick(2, 4), timeout=ctx.pick(600, 1800))
     ctx.absorb(recs)
-    for b in (walks[:2] + bs[-1:]):
+    for b in (walks[:2] + bs[-1:] + far[:1]):
         ctx.sample([{k: s[k] for k in ("op", "d", "n", "i", "kind", "res", "off")} for s in b])
     return ctx.finish(
         rule="a behaviour = one TLC-generated sequence of Write(direction, size), Read(direction, buffer size) and "
-             "at most one transport attack (all of depth %d by BFS + %d random walks of depth %d), each executed "
+             "at most one transport attack (all of depth %d by BFS + %d random walks of depth %d + directed runs in which the "
+             "recorded first frame is replayed exactly 2^8 / 2^16 (thorough: 2^24) frames later), each executed "
              "for the three AEAD suites with fresh ECDH keys; distinct by its call sequence; non-trivial if it "
              "contains a read" % (depth, len(walks), wl),
         assumptions=["ECDH, HKDF and the AEAD ciphers are trusted primitives (symbolic in the spec: a frame opens "
